@@ -47,6 +47,13 @@ pub enum RngMode {
     /// is inside any acceptance zone), so rand's own draws all terminate on this stream and the
     /// sampler must return: the one *permanently* stuck stream with a sound liveness oracle.
     ZeroForever,
+    /// two interleaved counters with fixed strides (a `StepRng`-like generator): stride 2^14 for
+    /// P16E1 runs, stride 32 on even draws and 2^30 on odd draws for P32E2 runs, starting at a base
+    /// that walks with the run index. With the crate's present ranges consecutive samples then take
+    /// consecutive values of the first draw (and cycle the second), so a thorough batch serves every
+    /// (first draw, second draw) combination several times; if the sampler draws differently this is
+    /// just another structured stream.
+    Sweep,
 }
 
 #[derive(Clone, Copy, PartialEq, Eq, Debug)]
@@ -181,6 +188,11 @@ pub struct SimRng<'a> {
     walk_pos: u32,
     zero_after: u32,
     total_draws: u32,
+    sweep_a: u32,
+    sweep_b: u32,
+    sweep_stride_a: u32,
+    sweep_two: bool,
+    sweep_phase: bool,
     pub long_bursts: u64,
     pub served: Vec<(Method, u64)>,
     /// draws since the current sample started / since the last burst ended
@@ -222,6 +234,11 @@ impl<'a> SimRng<'a> {
             walk_pos: 0,
             zero_after: 0,
             total_draws: 0,
+            sweep_a: 0,
+            sweep_b: 0,
+            sweep_stride_a: 32,
+            sweep_two: true,
+            sweep_phase: false,
             long_bursts: 0,
             served: Vec::new(),
             draws_since_calm: 0,
@@ -234,6 +251,28 @@ impl<'a> SimRng<'a> {
             burst_in_later: 0,
             sample_draws: 0,
         }
+    }
+
+    /// configure the Sweep mode: `k` is the stratum (walks with the run index), `per_run` samples
+    pub fn set_sweep(&mut self, qt: QT, k: u64, per_run: u64, low: u32) {
+        match qt {
+            QT::Q32 => {
+                // first draw value = word >> 5 (bit 4 clear = accepted), second = word >> 30 (bit 29 clear)
+                let cycles = (1u64 << 27) / per_run;
+                self.sweep_a = ((((k % cycles) * per_run) as u32) << 5) | (low & 0xF);
+                self.sweep_b = (((k / cycles) % 4) as u32) << 30 | (low >> 4 & 0x1FFF_FFFF);
+                self.sweep_stride_a = 32;
+                self.sweep_two = true;
+            }
+            _ => {
+                // one draw per sample: value = word >> 14 (bit 13 clear = accepted)
+                let cycles = ((1u64 << 18) / per_run).max(1);
+                self.sweep_a = ((((k % cycles) * per_run) as u32) << 14) | (low & 0x1FFF);
+                self.sweep_stride_a = 1 << 14;
+                self.sweep_two = false;
+            }
+        }
+        self.sweep_phase = false;
     }
 
     pub fn begin_sample(&mut self) {
@@ -353,6 +392,19 @@ impl<'a> SimRng<'a> {
                     }
                     before
                 }
+            }
+            RngMode::Sweep => {
+                let w = if self.sweep_two && self.sweep_phase {
+                    let v = self.sweep_b;
+                    self.sweep_b = self.sweep_b.wrapping_add(1 << 30);
+                    v
+                } else {
+                    let v = self.sweep_a;
+                    self.sweep_a = self.sweep_a.wrapping_add(self.sweep_stride_a);
+                    v
+                };
+                self.sweep_phase = !self.sweep_phase;
+                (w as u64) | ((w as u64) << 32)
             }
             RngMode::ZeroForever => {
                 if self.zero_after == 0 {
@@ -729,18 +781,24 @@ pub fn generate_and_run(seed: u64, run: u64, st: &mut Stats, outcomes: &[Bitmap;
 /// (and flushed) as they happen, so a sampler that never returns leaves the stream that hangs it.
 pub fn generate_and_run_traced(seed: u64, run: u64, st: &mut Stats, outcomes: &[Bitmap; 3], mut trace: Option<Box<dyn std::io::Write>>) -> RGenerated {
     let mut rng = Prng::for_run(seed, STREAM_RNG, run);
-    let qt = match rng.weighted(&[2, 5, 5]) {
+    // one run in sixteen is a Sweep run (see RngMode::Sweep): its type and stratum come from the
+    // run index (offset by the seed), everything else from the PRNG as usual
+    let sweep = if run % 16 == 7 { Some((run / 16).wrapping_add(seed % 1_000_003)) } else { None };
+    let mut qt = match rng.weighted(&[2, 5, 5]) {
         0 => QT::Q8,
         1 => QT::Q16,
         _ => QT::Q32,
     };
+    if let Some(k) = sweep {
+        qt = if k % 8 == 0 { QT::Q16 } else { QT::Q32 };
+    }
     st.hit(match qt {
         QT::Q8 => Pr::rng_runs_p8,
         QT::Q16 => Pr::rng_runs_p16,
         QT::Q32 => Pr::rng_runs_p32,
     });
-    let nsamples = rng.geometric(1, 64, 15, 16) as usize;
-    let mode = [
+    let mut nsamples = rng.geometric(1, 64, 15, 16) as usize;
+    let mut mode = [
         RngMode::Uniform,
         RngMode::StuckBurst,
         RngMode::EdgeHigh,
@@ -750,6 +808,10 @@ pub fn generate_and_run_traced(seed: u64, run: u64, st: &mut Stats, outcomes: &[
         RngMode::BitWalk,
         RngMode::ZeroForever,
     ][rng.weighted(&[6, 6, 8, 6, 4, 4, 6, 1])];
+    if sweep.is_some() {
+        mode = RngMode::Sweep;
+        nsamples = 256;
+    }
     st.hit(match mode {
         RngMode::Uniform => Pr::rng_mode_uniform,
         RngMode::StuckBurst => Pr::rng_mode_stuck,
@@ -759,12 +821,16 @@ pub fn generate_and_run_traced(seed: u64, run: u64, st: &mut Stats, outcomes: &[
         RngMode::Counter => Pr::rng_mode_counter,
         RngMode::BitWalk => Pr::rng_mode_bitwalk,
         RngMode::ZeroForever => Pr::rng_mode_zero,
+        RngMode::Sweep => Pr::rng_mode_sweep,
     });
     let skew = rng.chance(1, 2);
     if skew {
         st.hit(Pr::rng_skew);
     }
-    let entry = [Entry::Gen, Entry::Sample, Entry::Iter, Entry::Dyn, Entry::Arr4, Entry::Pair, Entry::Zst][rng.weighted(&[8, 6, 4, 4, 1, 1, 2])];
+    let mut entry = [Entry::Gen, Entry::Sample, Entry::Iter, Entry::Dyn, Entry::Arr4, Entry::Pair, Entry::Zst][rng.weighted(&[8, 6, 4, 4, 1, 1, 2])];
+    if sweep.is_some() && matches!(entry, Entry::Arr4 | Entry::Pair) {
+        entry = Entry::Gen;
+    }
     st.hit(match entry {
         Entry::Gen => Pr::rng_entry_gen,
         Entry::Sample => Pr::rng_entry_sample,
@@ -777,7 +843,11 @@ pub fn generate_and_run_traced(seed: u64, run: u64, st: &mut Stats, outcomes: &[
         let _ = writeln!(t, "type {}\nentry {}\nnsamples {}", qt.pname(), entry.name(), nsamples);
         let _ = t.flush();
     }
+    let low = rng.next() as u32;
     let mut sim = SimRng::new(&mut rng, mode, skew);
+    if let Some(k) = sweep {
+        sim.set_sweep(qt, k, 256, low);
+    }
     sim.trace = trace;
     let mut failure: Option<RFailure> = None;
     let mut outs: Vec<u32> = Vec::new();
